@@ -37,7 +37,11 @@
     completions in `k` calls the limit is `L - k`, the state is unchanged, LimitReached was never
     delivered, the limit never resampled), `C07_countdown_fire` / `C07_countdown_blockingBegin_fire`
     (the `L`-th completion delivers LimitReached), and `C07_other_machine_completion` (a
-    completion reported for another machine or an unknown id never consumes the limit).
+    completion reported for another machine or an unknown id never consumes the limit), and,
+    for ANY history of ANY batches, machines and oracle, with no assumption at all:
+    `C07_decrements_le_completions` (the limit of a machine is decremented at most as often as
+    completions for that machine are reported; the decrement is logged by `decrementLimit` only)
+    and `C07_no_completion_no_decrement`.
   The implementation is tied to this by the correspondence on (state, limit) after every call
   (tag RS), the internal log with the hook's limit entries (tag L) and `C07.monitor`.
 -/
@@ -463,6 +467,24 @@ theorem C07_other_machine_completion (mi j : Nat) (hj : j ≠ mi) (E : TEvent) (
     (triggerEvents ρ [E] t s).machines[mi]? = some m ∧
     ∃ l, (triggerEvents ρ [E] t s).log = l ++ s.log ∧ ∀ st', LogEntry.trans mi Event.limitReached.toNat st' ∉ l :=
   other_machine_completion ρ mi j hj E hE t s r m hr hm hns hbb
+
+/-- **Only a machine's own completions consume its limit** — for any history of calls with any
+    batches of events, any machines, any oracle, any starting framework: the log segment added by
+    the history holds at most as many decrements of `mi`'s limit (`limit mi _ true`, written by
+    `decrementLimit` and by nothing else) as the history reports completions for `mi`
+    (PaddingSent / BlockingBegin / TimerBegin carrying the id `mi`). Fewer are possible: a
+    completion that changes the machine's state, or reaches a machine in END, is not counted. -/
+theorem C07_decrements_le_completions (mi : Nat) (h : List Call) (s : Fw σ) :
+    ∃ l, (runCalls ρ s h).log = l ++ s.log ∧
+      l.countP (isDecrementOf mi) ≤ (h.map (fun c => c.1.countP (TEvent.completes mi))).sum :=
+  decrements_le_completions ρ mi h s
+
+/-- in particular: completions reported for other machines (and all other events) never
+    decrement the machine's limit -/
+theorem C07_no_completion_no_decrement (mi : Nat) (h : List Call) (s : Fw σ)
+    (hno : ∀ c ∈ h, ∀ e ∈ c.1, TEvent.completes mi e = false) :
+    ∃ l, (runCalls ρ s h).log = l ++ s.log ∧ ∀ x, LogEntry.limit mi x true ∉ l :=
+  no_completion_no_decrement ρ mi h s hno
 
 /-! ### Non-vacuity: the hypotheses are satisfiable and the model computes what the theorems say -/
 
